@@ -11,6 +11,7 @@ import (
 	"encoding/hex"
 	"encoding/json"
 	"fmt"
+	"io"
 	"os"
 	"os/exec"
 	"path/filepath"
@@ -43,6 +44,7 @@ type Event struct {
 	Seq    int               `json:"seq,omitempty"`
 	InProc bool              `json:"inproc,omitempty"`
 	Cores  int               `json:"cores,omitempty"`
+	Stdin  string            `json:"stdin,omitempty"` // start events of commands: what the command's standard input is (readlink of fd 0)
 }
 
 // MonoNS reads CLOCK_MONOTONIC.
@@ -361,7 +363,11 @@ func Exec(args []string, env *Env) int {
 	cwd, _ := os.Getwd()
 	helper := os.Getenv("VERIF_BGHELPER") != ""
 	if !helper {
-		Emit(&Event{Ev: "start", ID: c.ID, Key: key, Pid: evPid(), Argv: args, Cwd: cwd, InProc: env.InProc, Cores: env.Cores})
+		stdin := ""
+		if !env.InProc {
+			stdin, _ = os.Readlink("/proc/self/fd/0")
+		}
+		Emit(&Event{Ev: "start", ID: c.ID, Key: key, Pid: evPid(), Argv: args, Cwd: cwd, InProc: env.InProc, Cores: env.Cores, Stdin: stdin})
 	}
 	if opts["bgwrite"] != "" && !env.InProc && !helper {
 		// The command's work is done by a helper that outlives it (a background job, a bash process substitution):
@@ -448,6 +454,10 @@ func Exec(args []string, env *Env) int {
 			os.Stdout.WriteString(line)
 			os.Stderr.WriteString(line)
 		}
+	}
+	if opts["readstdin"] != "" && !env.InProc {
+		// a tool that takes optional input on its standard input (reads it to the end before it starts)
+		io.Copy(io.Discard, os.Stdin)
 	}
 	if d := atoi(opts["sleep"], 0); d > 0 {
 		time.Sleep(time.Duration(d) * time.Millisecond)
